@@ -382,6 +382,12 @@ end Slug.Generated
 
 // For every method of Builder that touches one of the shared fields: is the first statement that
 // mentions such a field preceded (in source order, within the method body) by a call b.mu.Lock()?
+// lockedSelfOnly: the method counts as locked only because it locks itself somewhere (then a call
+// placed before that Lock is not covered); methods held by their callers cover all of their body
+func lockedSelfOnly(lockedSelf map[string]bool, firstLockOf map[string]token.Pos, m string) bool {
+	return lockedSelf[m] && firstLockOf[m] != token.NoPos
+}
+
 func extractLocks(repo, out string) {
 	f, _ := parseFile(filepath.Join(repo, "sourcebundle/builder.go"))
 	p := filepath.Join(out, "Locks.lean")
@@ -394,6 +400,9 @@ func extractLocks(repo, out string) {
 	// methods documented to be called with the lock already held
 	heldByCaller := map[string]bool{"findRegistryPackageSource": true, "ensureRemotePackage": true, "writeManifest": true}
 	var facts []string
+	var names []string
+	lockedSelf := map[string]bool{}
+	firstLockOf := map[string]token.Pos{}
 	for _, d := range f.Decls {
 		fd, ok := d.(*ast.FuncDecl)
 		if !ok || fd.Recv == nil || fd.Body == nil || len(fd.Recv.List) != 1 {
@@ -434,7 +443,60 @@ func extractLocks(repo, out string) {
 			continue
 		}
 		okLock := heldByCaller[fd.Name.Name] || (firstLock != token.NoPos && firstLock < firstAccess)
-		facts = append(facts, fmt.Sprintf("(%s, %v)", leanStr(fd.Name.Name), okLock))
+		names = append(names, fd.Name.Name)
+		lockedSelf[fd.Name.Name] = okLock
+		firstLockOf[fd.Name.Name] = firstLock
+	}
+	// A method that does not take the lock itself is fine when every call of it inside the package sits
+	// in a Builder method after that method's own Lock(), or in a method that is itself only called with
+	// the lock held (helpers extracted from resolvePending and the like).  Fixed point over the call sites.
+	type site struct {
+		caller string
+		pos    token.Pos
+	}
+	calls := map[string][]site{}
+	for _, d := range f.Decls {
+		fd, ok := d.(*ast.FuncDecl)
+		if !ok || fd.Body == nil {
+			continue
+		}
+		ast.Inspect(fd.Body, func(n ast.Node) bool {
+			if c, ok := n.(*ast.CallExpr); ok {
+				if sel, ok := c.Fun.(*ast.SelectorExpr); ok {
+					if id, ok := sel.X.(*ast.Ident); ok && id.Name == "b" {
+						calls[sel.Sel.Name] = append(calls[sel.Sel.Name], site{fd.Name.Name, c.Pos()})
+					}
+				}
+			}
+			return true
+		})
+	}
+	held := map[string]bool{}
+	for k, v := range lockedSelf {
+		held[k] = v
+	}
+	for changed := true; changed; {
+		changed = false
+		for _, nm := range names {
+			if held[nm] || len(calls[nm]) == 0 {
+				continue
+			}
+			all := true
+			for _, st := range calls[nm] {
+				fl, known := firstLockOf[st.caller]
+				callerLocksBefore := known && fl != token.NoPos && fl < st.pos
+				if !(callerLocksBefore || (held[st.caller] && !lockedSelfOnly(lockedSelf, firstLockOf, st.caller))) {
+					all = false
+				}
+			}
+			if all {
+				held[nm] = true
+				changed = true
+			}
+		}
+	}
+	for _, nm := range names {
+		facts = append(facts, fmt.Sprintf("(%s, %v)", leanStr(nm), held[nm]))
 	}
 	// resolvePending (the queue-draining loop, which runs the fetcher, the registry client and the
 	// dependency finders with b.mu held): number of b.mu.Lock() calls, and number of b.mu.Unlock() calls
@@ -503,7 +565,63 @@ func intLit(e ast.Expr) (int64, bool) {
 	return 0, false
 }
 
-// literal integer arguments (position argIdx) of every call of fn inside function fnName of f
+// integer constants declared at package level in the given files (name -> value; literal values only)
+func intConsts(files ...*ast.File) map[string]int64 {
+	m := map[string]int64{}
+	for _, f := range files {
+		if f == nil {
+			continue
+		}
+		for _, d := range f.Decls {
+			gd, ok := d.(*ast.GenDecl)
+			if !ok || (gd.Tok != token.CONST && gd.Tok != token.VAR) {
+				continue
+			}
+			for _, sp := range gd.Specs {
+				vs, ok := sp.(*ast.ValueSpec)
+				if !ok {
+					continue
+				}
+				for i, n := range vs.Names {
+					if i < len(vs.Values) && gd.Tok == token.CONST {
+						if v, ok := intLit(vs.Values[i]); ok {
+							m[n.Name] = v
+						}
+					}
+				}
+			}
+		}
+	}
+	return m
+}
+
+// knownConsts: named integer constants an argument may be spelled with instead of a literal
+// (a literal moved into a constant is the same fact); filled by extractSlug
+var knownConsts = map[string]int64{}
+
+func intArg(e ast.Expr) (int64, bool) {
+	if v, ok := intLit(e); ok {
+		return v, true
+	}
+	switch x := e.(type) {
+	case *ast.Ident:
+		v, ok := knownConsts[x.Name]
+		return v, ok
+	case *ast.SelectorExpr:
+		v, ok := knownConsts[x.Sel.Name]
+		return v, ok
+	case *ast.ParenExpr:
+		return intArg(x.X)
+	case *ast.CallExpr:
+		// a conversion such as os.FileMode(0755)
+		if len(x.Args) == 1 {
+			return intArg(x.Args[0])
+		}
+	}
+	return 0, false
+}
+
+// integer arguments (position argIdx; a literal or a named constant) of every call of fn inside function fnName of f
 func callIntArgs(f *ast.File, inFunc, fn string, argIdx int) []int64 {
 	var out []int64
 	for _, d := range f.Decls {
@@ -513,8 +631,10 @@ func callIntArgs(f *ast.File, inFunc, fn string, argIdx int) []int64 {
 		}
 		ast.Inspect(fd.Body, func(n ast.Node) bool {
 			if c, ok := n.(*ast.CallExpr); ok && exprText(c.Fun) == fn && len(c.Args) > argIdx {
-				if v, ok := intLit(c.Args[argIdx]); ok {
+				if v, ok := intArg(c.Args[argIdx]); ok {
 					out = append(out, v)
+				} else {
+					out = append(out, -1) // an argument that is not a constant
 				}
 			}
 			return true
@@ -532,10 +652,29 @@ func typeflagNames(f *ast.File, method string) []string {
 			continue
 		}
 		ast.Inspect(fd.Body, func(n ast.Node) bool {
-			if b, ok := n.(*ast.BinaryExpr); ok && b.Op == token.EQL {
-				for _, side := range []ast.Expr{b.X, b.Y} {
-					if t := exprText(side); strings.HasPrefix(t, "tar.Type") {
-						out = append(out, strings.TrimPrefix(t, "tar."))
+			switch x := n.(type) {
+			case *ast.BinaryExpr:
+				// i.Typeflag == tar.TypeX
+				if x.Op == token.EQL {
+					for _, side := range []ast.Expr{x.X, x.Y} {
+						if t := exprText(side); strings.HasPrefix(t, "tar.Type") {
+							out = append(out, strings.TrimPrefix(t, "tar."))
+						}
+					}
+				}
+			case *ast.CaseClause:
+				// switch i.Typeflag { case tar.TypeX, tar.TypeY: return true }
+				returnsTrue := false
+				for _, st := range x.Body {
+					if r, ok := st.(*ast.ReturnStmt); ok && len(r.Results) == 1 && exprText(r.Results[0]) == "true" {
+						returnsTrue = true
+					}
+				}
+				if returnsTrue {
+					for _, e := range x.List {
+						if t := exprText(e); strings.HasPrefix(t, "tar.Type") {
+							out = append(out, strings.TrimPrefix(t, "tar."))
+						}
 					}
 				}
 			}
@@ -543,6 +682,19 @@ func typeflagNames(f *ast.File, method string) []string {
 		})
 	}
 	return out
+}
+
+// previousDef returns the right-hand side of `def name : T := rhs` in an earlier version of a
+// generated file ("" if absent)
+func previousDef(old, name string) string {
+	for _, line := range strings.Split(old, "\n") {
+		if strings.HasPrefix(line, "def "+name+" ") {
+			if i := strings.Index(line, ":= "); i >= 0 {
+				return line[i+3:]
+			}
+		}
+	}
+	return ""
 }
 
 func int64List(xs []int64) string {
@@ -675,6 +827,7 @@ func extractSlug(repo, out string) {
 		return
 	}
 	var checks []string
+	checksFound := true
 	for _, c := range [][2]string{{"tarW.WriteHeader", ""}, {"io.Copy", "tarW"}, {"tarW.Close", ""}, {"gzipW.Close", ""}} {
 		n, all := errChecked(f, c[0], c[1])
 		name := c[0]
@@ -682,9 +835,36 @@ func extractSlug(repo, out string) {
 			name += "(" + c[1] + ")"
 		}
 		checks = append(checks, fmt.Sprintf("(%q, %d, %v)", name, n, all))
+		if n == 0 {
+			checksFound = false
+		}
 	}
+	knownConsts = intConsts(f, u)
 	mk := callIntArgs(f, "Unpack", "os.MkdirAll", 1)
 	ch := callIntArgs(f, "Unpack", "os.Chmod", 1)
+	// A fact that cannot be found in the shape the extractor knows (the source was restructured) keeps
+	// its last value and is listed in slugNotExtracted: for that fact the run relies on the lanes alone.
+	oldB, _ := os.ReadFile(p)
+	var missing []string
+	keep := func(name, val string, found bool) string {
+		if found {
+			return val
+		}
+		if prev := previousDef(string(oldB), name); prev != "" {
+			missing = append(missing, name)
+			return prev
+		}
+		return val
+	}
+	sym, dir := typeflagNames(u, "IsSymlink"), typeflagNames(u, "IsDirectory")
+	reg, tx := typeflagNames(u, "IsRegular"), typeflagNames(u, "IsTypeX")
+	vMk := keep("unpackMkdirAllModes", int64List(mk), len(mk) > 0)
+	vCh := keep("unpackChmodModes", int64List(ch), len(ch) > 0)
+	vSym := keep("symlinkFlags", leanStrList(sym), len(sym) > 0)
+	vDir := keep("directoryFlags", leanStrList(dir), len(dir) > 0)
+	vReg := keep("regularFlags", leanStrList(reg), len(reg) > 0)
+	vTx := keep("typeXFlags", leanStrList(tx), len(tx) > 0)
+	vChecks := keep("ioErrChecks", "["+strings.Join(checks, ", ")+"]", checksFound)
 	content := fmt.Sprintf(`/-! GENERATED by harness/cmd/extract from /repo/slug.go and /repo/internal/unpackinfo/unpackinfo.go — do not edit.
 The bound on followed link chains, the literal permission arguments of os.MkdirAll / os.Chmod inside
 Packer.Unpack (source order), and the tar type flags each UnpackInfo predicate compares with. -/
@@ -706,13 +886,16 @@ def typeXFlags : List String := %s
 
 /-- write-side operations of Pack: (call, number of call sites, every call
 site has its error result tested at once and turned into a non-nil error return) -/
-def ioErrChecks : List (String × Nat × Bool) := [%s]
+def ioErrChecks : List (String × Nat × Bool) := %s
 
 def slugExtracted : Bool := true
 
+/-- facts that were not found in the source in a shape the extractor knows on this run (they keep their
+last value; the lanes are what ties them) -/
+def slugNotExtracted : List String := %s
+
 end Slug.Generated
-`, maxHops, int64List(mk), int64List(ch), leanStrList(typeflagNames(u, "IsSymlink")), leanStrList(typeflagNames(u, "IsDirectory")),
-		leanStrList(typeflagNames(u, "IsRegular")), leanStrList(typeflagNames(u, "IsTypeX")), strings.Join(checks, ", "))
+`, maxHops, vMk, vCh, vSym, vDir, vReg, vTx, vChecks, leanStrList(missing))
 	writeIfChanged(p, content)
 }
 
